@@ -40,6 +40,7 @@ class ClassInfo:
     order: bool = False
     is_protocol: bool = False
     is_enum: bool = False
+    is_model: bool = False  # pydantic BaseModel / RootModel subclass
     runtime_checkable: bool = False
     fields: list = field(default_factory=list)  # own FieldInfo (declaration order)
     methods: dict = field(default_factory=dict)  # name -> FuncInfo
@@ -192,6 +193,10 @@ class World:
                     mi.constants[nm] = st.value
                 elif isinstance(st, ast.AnnAssign) and isinstance(st.target, ast.Name) and st.value is not None:
                     mi.constants[st.target.id] = st.value
+                elif (isinstance(st, ast.Assign) and len(st.targets) == 1 and isinstance(st.targets[0], ast.Attribute)
+                      and isinstance(st.targets[0].value, ast.Name) and st.targets[0].value.id in mi.classes):
+                    # class variables initialised after the class body (EnvelopeConfig.TEXT = ...)
+                    mi.classes[st.targets[0].value.id].class_attrs[st.targets[0].attr] = st.value
 
         scan(mi.tree.body)
 
@@ -396,6 +401,8 @@ class World:
                     ci.is_protocol = True
                 if tail in ("Enum", "IntEnum", "StrEnum"):
                     ci.is_enum = True
+                if tail in ("BaseModel", "RootModel"):
+                    ci.is_model = True
             else:
                 out.append("?" + ast.unparse(bb))
         ci.bases = out
@@ -419,6 +426,9 @@ class World:
                         bc = self.get_class(b) if not b.startswith(("ext:", "?")) else None
                         if bc is not None and bc.is_enum and not ci.is_enum:
                             ci.is_enum = True
+                            changed = True
+                        if bc is not None and bc.is_model and not ci.is_model:
+                            ci.is_model = True
                             changed = True
 
     def mro(self, qname: str) -> list[str]:
